@@ -93,7 +93,7 @@ func (d *DAG) Has(c cid.Cid) bool {
 }
 
 // Put stores a node without a scheduling point or fault (harness set-up).
-func (d *DAG) Put(n ipld.Node) { d.Nodes[n.Cid().KeyString()] = n }
+func (d *DAG) Put(n ipld.Node) { d.Nodes[n.Cid().KeyString()] = n.Copy() }
 
 func (d *DAG) Get(ctx context.Context, c cid.Cid) (ipld.Node, error) {
 	if err := d.point(ctx, "get", c); err != nil {
@@ -110,7 +110,9 @@ func (d *DAG) Get(ctx context.Context, c cid.Cid) (ipld.Node, error) {
 	if !ok {
 		return nil, ipld.ErrNotFound{Cid: c}
 	}
-	return n, nil
+	// like a real DAG service (which decodes a block), every Get yields a node
+	// object of its own: callers such as the DagModifier mutate what they get
+	return n.Copy(), nil
 }
 
 func (d *DAG) GetMany(ctx context.Context, cids []cid.Cid) <-chan *ipld.NodeOption {
@@ -154,7 +156,7 @@ func (d *DAG) Add(ctx context.Context, n ipld.Node) error {
 	if err := d.point(ctx, "add", n.Cid()); err != nil {
 		return err
 	}
-	d.Nodes[n.Cid().KeyString()] = n
+	d.Nodes[n.Cid().KeyString()] = n.Copy()
 	return nil
 }
 
